@@ -104,7 +104,11 @@ class IC10Operand:
 
     def to_string(self) -> str:
         if isinstance(self.value, IC10Register):
-            return self.value.code_expr
+            code_expr = self.value.code_expr
+            if isinstance(code_expr, float):
+                # an inlined argument bound to a number: format it like any other number
+                return IC10Operand(code_expr).to_string()
+            return code_expr
         elif isinstance(self.value, float):
             absval = abs(self.value)
             if absval >= 0.1:
